@@ -38,11 +38,18 @@ type stringerHidden struct{ s string }
 
 func (s stringerHidden) String() string { return s.s }
 
+// valSlice is a struct VALUE that shares state with whoever built it (the slice's backing array): an item that
+// changes behind the cell's back although it is no pointer (C01: Update re-reads it).
+type valSlice struct{ Tags []string }
+
 type marshaler struct{ v string }
 
 func (m marshaler) MarshalJSON() ([]byte, error) { return json.Marshal(M{"m": m.v}) }
 
 func otherValue(which string) interface{} {
+	if strings.HasPrefix(which, "valslice:") {
+		return valSlice{Tags: strings.Split(strings.TrimPrefix(which, "valslice:"), ",")}
+	}
 	switch which {
 	case "int42":
 		return 42
@@ -60,6 +67,12 @@ func otherValue(which string) interface{} {
 		return 1e21
 	case "nan":
 		return math.NaN()
+	case "inf":
+		return math.Inf(-1)
+	case "float32":
+		return float32(0.1) // (its text is "0.1": formatting it as a float64 shows the widening error)
+	case "float32b":
+		return float32(16777217.0 / 3)
 	case "true":
 		return true
 	case "false":
